@@ -80,11 +80,11 @@ def gen_inputs(ctx):
     def add(kind, files, root):
         wss.append(L.mk_ws(files, root, ctx.rng, hover=True, completion=True, hints="sample"))
         kinds.append(kind)
-    n_base = 120 if ctx.quick else 400
+    n_base = 120 if ctx.quick else 1000
     for kind, files, root in L.derived_workspaces(g, ctx.rng, n_base, 4, 6, 1):
         add(kind, files, root)
     # every token prefix of a few programs
-    for _ in range(10 if ctx.quick else 40):
+    for _ in range(10 if ctx.quick else 120):
         t = g.program(ctx.rng.randrange(2, 5))
         for p in symgen.prefixes(t, ctx.rng, 10 ** 6):
             add("every-prefix", [["/w/main.td", p]], "/w/main.td")
@@ -93,7 +93,7 @@ def gen_inputs(ctx):
         add("stress", fs, "/w/main.td")
         for p in symgen.prefixes(s, ctx.rng, 10 ** 6):
             add("stress-prefix", [["/w/main.td", p], fs[1]], "/w/main.td")
-        for p in symgen.token_edits(s, ctx.rng, 6 if ctx.quick else 20):
+        for p in symgen.token_edits(s, ctx.rng, 6 if ctx.quick else 40):
             add("stress-edit", [["/w/main.td", p], fs[1]], "/w/main.td")
     return wss, kinds
 
@@ -103,7 +103,7 @@ def corpus_inputs(ctx):
         return []
     os.environ["INCLUDE_DIR"] = "/c"
     out = []
-    for files, root in L.corpus_workspaces(ctx.rng, 6, 16000):
+    for files, root in L.corpus_workspaces(ctx.rng, 12, 21000):
         out.append(L.mk_ws(files, root, ctx.rng, hover=True, completion=True, hints="full"))
     return out
 
